@@ -189,8 +189,8 @@ def success(repo, run):
 
 
 # ------------------------------------------------------------------------------------------------
-def slots(repo, run):
-    rid = run.rule("C15.2", "all return sites of nonlinear_roots give the last slot the same meaning (the residual norm the consumer compares with its tolerance); "
+def slots(repo, run, rule_id="C15.2"):
+    rid = run.rule(rule_id, "all return sites of nonlinear_roots give the last slot the same meaning (the residual norm the consumer compares with its tolerance); "
                             "newtontrustregion and hybrj return tuples of fixed arity", floor=3)
     fn = repo.get(OPT, "nonlinear_roots")
     ke = KindEngine(fn, seeds_for(fn), disciplines=())
@@ -206,7 +206,7 @@ def slots(repo, run):
     oka = arities == {5}
     run.judged(rid, "nonlinear_roots result tuples have arity %s" % sorted(arities), ok=oka)
     if not oka:
-        run.report("C15.2", OPT, rets[0], "nonlinear_roots returns result tuples of different lengths %s: the consumer unpacks (success, iterations, nfev, njev, residual)" % sorted(arities),
+        run.report(rule_id, OPT, rets[0], "nonlinear_roots returns result tuples of different lengths %s: the consumer unpacks (success, iterations, nfev, njev, residual)" % sorted(arities),
                    text="result arity %s" % sorted(arities))
     for k, r, last in kinds:
         ok = k == "G"
@@ -216,7 +216,7 @@ def slots(repo, run):
             from ..imodel import path_key
             prev = [c for c in ast.walk(fn) if isinstance(c, ast.Call) and dotted(c.func) in ("hybrj", "newtontrustregion", "scipy.optimize.root") and path_key(c, fn) < path_key(r, fn)]
             branch = dotted(sorted(prev, key=lambda c: path_key(c, fn))[-1].func) if prev else "?"
-            run.report("C15.2", OPT, r, text="%s [after %s]" % (src(r), branch), why="this return site puts `%s` (kind %s: %s) in the slot where the other sites return the residual norm ||F||; the implicit "
+            run.report(rule_id, OPT, r, text="%s [after %s]" % (src(r), branch), why="this return site puts `%s` (kind %s: %s) in the slot where the other sites return the residual norm ||F||; the implicit "
                                         "integrator accepts a stage solve iff that slot is below its tolerance" % (src(last), k, "a step norm" if k == "X" else "a pure number"))
     for q, n in (("hybrj", 4), ("newtontrustregion", 5)):
         cfn = repo.get(OPT, q)
@@ -225,7 +225,7 @@ def slots(repo, run):
         ok = bool(crets) and all(len(r.value.elts[1].elts) == n for r in crets)
         run.judged(rid, "%s returns (root, %d-tuple)" % (q, n), ok=ok)
         if not ok:
-            run.report("C15.2", OPT, crets[0] if crets else cfn, "%s no longer returns (root, %d-tuple): nonlinear_roots unpacks that shape" % (q, n), text="%s result arity" % q)
+            run.report(rule_id, OPT, crets[0] if crets else cfn, "%s no longer returns (root, %d-tuple): nonlinear_roots unpacks that shape" % (q, n), text="%s result arity" % q)
 
 
 # ------------------------------------------------------------------------------------------------
